@@ -294,6 +294,12 @@ impl<'a> EventListenerFuture for AcquireInner<'a> {
                     // Drop our listener: if it holds a notification that we did
                     // not need, it is passed on to the next waiter.
                     *this.listener = None;
+                    // Releases that happened while our notification was still pending were
+                    // absorbed by it (`notify(1)` does nothing while a listener is notified).
+                    // If permits are left, pass the baton on so that they reach a waiter.
+                    if this.semaphore.count.load(Ordering::Acquire) > 0 {
+                        this.semaphore.event.notify(1);
+                    }
                     return Poll::Ready(guard);
                 }
                 None => {
@@ -352,6 +358,12 @@ impl EventListenerFuture for AcquireArcInner {
                     // Drop our listener: if it holds a notification that we did
                     // not need, it is passed on to the next waiter.
                     *this.listener = None;
+                    // Releases that happened while our notification was still pending were
+                    // absorbed by it (`notify(1)` does nothing while a listener is notified).
+                    // If permits are left, pass the baton on so that they reach a waiter.
+                    if this.semaphore.count.load(Ordering::Acquire) > 0 {
+                        this.semaphore.event.notify(1);
+                    }
                     return Poll::Ready(guard);
                 }
                 None => {
